@@ -117,7 +117,13 @@ func c04Call(t *testing.T, em *verifEmitter, cfg c04Cfg, script []c04Op) {
 		opts = append(opts, WithCallTimeout(cfg.call))
 	}
 	icpt := TimeoutInterceptor(cfg.def)
-	emit(verifEv{"e": "reset", "kind": "rpcc", "tmo": c04Floor(cfg.effective()), "pdl": pdl,
+	// the settings as they are (interceptor default, per-call option); which timeout they amount to is
+	// decided by Layer P (Timeout.tla, TmoChoices)
+	ov := []int{}
+	if cfg.hasCall {
+		ov = append(ov, c04Floor(cfg.call))
+	}
+	emit(verifEv{"e": "reset", "kind": "rpcc", "glob": c04Floor(cfg.def), "ov": ov, "mw": true, "pdl": pdl,
 		"exempt": false, "s0": c04Floor(time.Since(base))})
 	pan := false
 	var err error
